@@ -8,9 +8,10 @@
 import re, os
 from tools import cxx2c
 from tools.cxx2c import Lower, Unsupported, kids, qt, qt_sugar, strip, strip_parens, callee_name, norm_type, walk
+from tools.cxx2c import REPO as _REPO
 
 NAME = 'CLI'
-SRC = '/repo/src/bloch/cli/cli.cpp'
+SRC = _REPO + '/src/bloch/cli/cli.cpp'
 NAMESPACE = 'bloch::cli'
 FUNCS = []
 AST_FILTER = ['runImpl']
